@@ -396,7 +396,9 @@ class ParmapperInit(Unit):
                           z3.And(box(ex, g('_instream')) == self.P['instream'], box(ex, g('_func')) == self.P['func'], box(ex, g('_concurrency')) == box(ex, self.conc),
                                  box(ex, g('_fifo_capacity')) == box(ex, 2 * self.conc), g('_return_x') == self.rx, g('_return_exceptions') == self.rexc,
                                  box(ex, g('_preprocessor')) == self.P['preprocessor'], z3.BoolVal(g('_func_kwargs') is self.kw),
-                                 g('_executor_type') == s.env['executor']))
+                                 g('_executor_type') == s.env['executor'],
+                                 box(ex, g('_executor_initializer')) == self.P['executor_initializer'] if self.me.has(s, '_executor_initializer') else z3.BoolVal(False),
+                                 z3.BoolVal(self.me.has(s, '_executor_init_args') and self.me.has(s, '_name')), box(ex, g('_name')) == self.P['parmapper_name'] if self.me.has(s, '_name') else z3.BoolVal(False)))
 
 
 class ParmapperInitDefault(ParmapperInit):
